@@ -1,5 +1,30 @@
 """Which machinery decides which property."""
 import extras
+import asm_yaml
+
+def _bca(n, tier=None):
+    h = {'name': 'proofs::bca_len_%d' % n, 'bound': 'all byte strings of length exactly %d x all 256 effect masks' % n,
+         'claim': 'well-formed bytes ==> bytes_contains_any(bytes, effects) == (some parsed op has an effect in the set)'}
+    if tier:
+        h['tier'] = tier
+    return h
+
+KANI_TYPES_K1 = {'crate': 'kani/types_k1', 'kind': 'complete', 'parallel': 4, 'harnesses': [
+    {'name': 'proofs::word_bytes_roundtrip', 'claim': 'bytes_from_word / word_from_bytes are mutually inverse and big-endian (all words, all byte arrays)'},
+    {'name': 'proofs::word4_u8_32_inverse', 'claim': 'word_4_from_u8_32 / u8_32_from_word_4 inverse both ways, big-endian per word'},
+    {'name': 'proofs::word8_u8_64_inverse', 'claim': 'word_8_from_u8_64 / u8_64_from_word_8 inverse both ways'},
+    {'name': 'proofs::bool_from_word_exact', 'claim': 'bool_from_word accepts exactly 0 and 1'},
+    {'name': 'proofs::signature_and_address_conversions', 'claim': 'Signature <-> [u8; 65], ContentAddress <-> [u8; 32] / [Word; 4] inverse'},
+    {'name': 'proofs::word_from_bytes_slice_pads', 'claim': 'word_from_bytes_slice pads short slices with zeros and ignores bytes past 8'},
+]}
+KANI_WORD_BYTES = {'crate': 'kani/types_k1', 'kind': 'complete', 'harnesses': [KANI_TYPES_K1['harnesses'][0]]}
+KANI_ASM_EFFECTS = {'crate': 'kani/asm_k1', 'generate': asm_yaml.gen_kani_table, 'kind': 'complete', 'harnesses': [
+    {'name': 'proofs::effects_api', 'claim': 'bitflags-generated Effects API (empty/all/bits/contains/union/|=/==, flag constants) has its documented bit-level meaning'}]}
+KANI_ASM_BCA = {'crate': 'kani/asm_k1', 'generate': asm_yaml.gen_kani_table, 'kind': 'bounded', 'parallel': 6, 'timeout_s': 1500, 'harnesses':
+    [_bca(10)] + [_bca(n, 'thorough') for n in (0, 1, 2, 3, 9, 11, 12, 18, 19, 20)]}
+KANI_ASM_CODEC = {'crate': 'kani/asm_k1', 'generate': asm_yaml.gen_kani_table, 'kind': 'complete', 'parallel': 2, 'timeout_s': 2400, 'harnesses': [
+    {'name': 'proofs::truncated_immediate', 'claim': 'empty input is None; opcode with immediates followed by fewer than 8 bytes is NotEnoughBytes; invalid byte is InvalidOpcode'},
+    {'name': 'proofs::decode_then_encode_9', 'tier': 'thorough', 'claim': 'all [u8; 9]: parse fails exactly per asm.yml or yields the op asm.yml names for that byte, which serialises to exactly the consumed bytes'}]}
 
 PROPS = {
     'C05': {'level': 'proof', 'verus_units': ['vm_core'],
@@ -17,7 +42,7 @@ PROPS = {
             'explanation': 'access ops against spec functions; crypto marshalling assumed'},
     'C06': {'level': 'proof', 'verus_units': ['types_core', 'check_core'],
             'explanation': 'decoders / validators / graph helpers carry no precondition on the untrusted argument; Verus discharges every index, slice, unwrap/expect, arithmetic obligation'},
-    'C18': {'level': 'proof', 'verus_units': ['types_core'],
+    'C18': {'level': 'proof', 'verus_units': ['types_core'], 'kani': [KANI_TYPES_K1],
             'explanation': 'decode_mutation(s) invert the spec encoders on every input; node_edges equals the documented sub-range; fixed-width conversions by complete Kani proofs'},
     'C16': {'level': 'proof', 'verus_units': ['check_core'],
             'explanation': 'validators accept exactly the documented limits (bi-implications)'},
@@ -27,9 +52,9 @@ PROPS = {
             'explanation': 'graph layer only: malformed graphs rejected (create_parent_map Ok <==> graph_ok), helpers panic-free on every graph; orchestration not covered'},
     'C03': {'level': 'other', 'verus_units': ['check_core', 'vm_core'],
             'explanation': 'state-read routing (vm_core), overlay fallback for contracts without mutations, key successor (bounded), deferral helpers panic-free; two-pass sequencing not covered'},
-    'C13': {'level': 'proof', 'verus_units': ['asm_core'], 'extra': [extras.asm_table],
+    'C13': {'level': 'proof', 'verus_units': ['asm_core'], 'extra': [extras.asm_table], 'kani': [KANI_WORD_BYTES, KANI_ASM_CODEC],
             'explanation': 'the codec the proc-macro generated (macro-expanded text of the working tree) is verified against spec tables generated from asm.yml by an independent YAML reading: '
                            'opcode <-> byte tables, immediates, per-op encode/decode, the byte iterators; sequence-level round trips are Verus lemmas over those tables; pinned-table comparison'},
-    'C15': {'level': 'proof', 'verus_units': ['asm_core'],
+    'C15': {'level': 'proof', 'verus_units': ['asm_core'], 'kani': [KANI_ASM_EFFECTS, KANI_ASM_BCA],
             'explanation': 'analyze(ops) returns exactly the union of the effect flags of the ops (all slices); bytes_contains_any is outside Verus (by_ref/take/for_each) and checked bounded'},
 }
